@@ -283,6 +283,12 @@ def run(chk, w):
                 cv = rules.const_of(fl, cnd["b"])
                 if cv is not None and k2 == key and ((cnd["pred"] == "eq") != truth):
                     excl.add(cv & 0xff)
+        # `switch (v) { case MAGIC: case ESCAPE: ...; default: store v; }`: the default edge excludes every case value
+        for sw in fl.all_insts():
+            if sw.op == "switch" and rules.expr_key(fl, sw["cond"]) == key:
+                dflt = sw["default"]
+                if all(cb != dflt for cv, cb in sw["cases"]) and rules.edge_dominates(fl, sw.bb.id, dflt, s):
+                    excl |= {cv & 0xff for cv, cb in sw["cases"]}
         if {MAGIC, ESC} <= excl:
             chk.ok("C01-EXC", 1, {"store": s.loc(), "kind": "value with 0xFE/0xFD excluded on this path"})
             _note_emit(fl, key, crc_cells, emitted_payload_keys)
